@@ -63,7 +63,8 @@ def check(ctx: Ctx, ev: Evidence) -> list[Finding]:
                 after = [y for y in e.ev[pos[-1] + 1:] if y.kind in ("pdu",) or (y.kind == "env" and y.name.startswith("user."))] if pos else [None]
                 if pos and not after and "bit width" in x.detail:
                     allowed, why = True, CALLER_FAULTS[0][3]
-            key = f"{which} handler | {x.cls} ({x.origin}) | {fn} | {x.detail[:90]}"
+            # keyed by public call and entry step, not by the private function the exception is raised in (rename-robust)
+            key = f"{which} handler | {x.cls} ({x.origin}) | call {show_label(e.label)} | entry step {_step(a, e.pre)} | {x.detail[:90]}"
             if allowed:
                 if key not in seen_r1:
                     seen_r1[key] = True
@@ -72,12 +73,12 @@ def check(ctx: Ctx, ev: Evidence) -> list[Finding]:
                 if key not in seen_r1:
                     seen_r1[key] = e
                     ev.inst("C10-R1", key, "violation", x.site)
-                    out.append(Finding("C10-R1", key, f"{x.cls} can leave {h.cls.split('.')[-1]}.{e.label[0]}: {x.detail}", x.site, witness_of(a, e)))
+                    out.append(Finding("C10-R1", key, f"{x.cls} can leave {h.cls.split('.')[-1]}.{e.label[0]} (raised in {fn}): {x.detail}", x.site, witness_of(a, e)))
                     ev.sample({"rule": "C10-R1", "witness": witness_of(a, e, 12)})
             # R2
             if x.cls == "UnretrievedPdusToBeSent":
                 queued = bool(h.wget(e.pre, "_pdus_to_be_sent"))
-                k2 = f"{which} handler | raised in {fn} | call {show_label(e.label)} | entry step {_step(a, e.pre)}"
+                k2 = f"{which} handler | UnretrievedPdusToBeSent with an empty queue at entry | call {show_label(e.label)} | entry step {_step(a, e.pre)}"
                 if k2 + str(queued) in seen_k:
                     pass
                 elif queued:
